@@ -161,7 +161,8 @@ type typeFlow struct {
 	in     map[*ssa.BasicBlock]tstate
 	seenIn map[*ssa.BasicBlock]bool
 	// results: state just before each non-commaok TypeAssert
-	at map[*ssa.TypeAssert]tset
+	at  map[*ssa.TypeAssert]tset
+	out map[*ssa.BasicBlock]tstate
 }
 
 func tname(t types.Type) string { return types.TypeString(t, func(p *types.Package) string { return p.Path() }) }
@@ -419,6 +420,7 @@ func (tf *typeFlow) run() {
 		return
 	}
 	out := map[*ssa.BasicBlock]tstate{}
+	tf.out = out
 	computed := map[*ssa.BasicBlock]bool{}
 	work := []*ssa.BasicBlock{fn.Blocks[0]}
 	inWork := map[*ssa.BasicBlock]bool{fn.Blocks[0]: true}
@@ -535,4 +537,23 @@ func killName(st tstate, name string) {
 			idx = end
 		}
 	}
+}
+
+// setOnEdge: the type set of v on the control-flow edge pred -> succ (slot = predecessor slot in succ).
+func (tf *typeFlow) setOnEdge(v ssa.Value, pred, succ *ssa.BasicBlock, slot int) tset {
+	o, ok := tf.out[pred]
+	if !ok {
+		return posT()
+	}
+	es := tf.edgeState(pred, succIndex(pred, succ, slot), o)
+	return tf.get(es, v)
+}
+
+// setAtEntry: the type set of v at the entry of block b.
+func (tf *typeFlow) setAtEntry(v ssa.Value, b *ssa.BasicBlock) tset {
+	st, ok := tf.in[b]
+	if !ok {
+		return posT()
+	}
+	return tf.get(st, v)
 }
